@@ -179,6 +179,10 @@ if _STATES:
 else:
     self._number_of_configurations = 0
 ___
+if self.number_of_configurations() > maximum_number_of_configurations:
+    self.all_configurations_ids = None
+    self.all_configurations = None
+    return
 self.all_configurations_ids = __IDS
 self.all_configurations = __CONFS
 """)
